@@ -472,11 +472,55 @@ def attr_rule(prog, run):
                 keys = [k[0]] if k[1] else loops.get(id(n), {}).get(k[0], [])
                 for kk in keys:
                     uses.setdefault(kk, set()).add(n.attr)
-        sens_names_key = "sensors names"
+        # uses through `for sheet, value in d.items()`: they apply to EVERY sheet of the dictionary (required ones included), unless the
+        # use sits behind an isinstance(value, DataFrame) test or a membership test of the sheet name in a constant list
+        pm_ = astq.parent_map(chk.node)
+
+        def guards_of(node, stop):
+            """(isinstance-guarded?, restricting key list or None) from the tests that dominate `node` inside the loop `stop`"""
+            isinst, restrict = False, None
+            cur = node
+            while cur is not stop and cur is not None:
+                par = pm_.get(cur)
+                tests = []
+                if isinstance(par, ast.If) and cur in par.body:
+                    tests.append(par.test)
+                if isinstance(par, ast.BoolOp) and isinstance(par.op, ast.And):
+                    tests.extend(par.values[:par.values.index(cur)] if cur in par.values else [])
+                if isinstance(par, ast.IfExp) and cur is par.body:
+                    tests.append(par.test)
+                for t in tests:
+                    for z in ast.walk(t):
+                        if isinstance(z, ast.Call) and isinstance(z.func, ast.Name) and z.func.id == "isinstance" and len(z.args) == 2 and "DataFrame" in astq.src(z.args[1]):
+                            isinst = True
+                        if isinstance(z, ast.Compare) and len(z.ops) == 1 and isinstance(z.ops[0], ast.In) and isinstance(z.left, ast.Name):
+                            c0 = z.comparators[0]
+                            ks = [x.value for x in c0.elts] if isinstance(c0, (ast.List, ast.Tuple)) and all(isinstance(x, ast.Constant) for x in c0.elts) else \
+                                (const_list(chk, c0.id) if isinstance(c0, ast.Name) else None)
+                            if ks is not None:
+                                restrict = ks if restrict is None else [k for k in restrict if k in ks]
+                cur = par
+            return isinst, restrict
+        for lp in ast.walk(chk.node):
+            if isinstance(lp, ast.For) and isinstance(lp.target, ast.Tuple) and len(lp.target.elts) == 2 and all(isinstance(t, ast.Name) for t in lp.target.elts) \
+                    and isinstance(lp.iter, ast.Call) and isinstance(lp.iter.func, ast.Attribute) and lp.iter.func.attr == "items" \
+                    and isinstance(lp.iter.func.value, ast.Name) and lp.iter.func.value.id == d:
+                kvar, vvar = lp.target.elts[0].id, lp.target.elts[1].id
+                for n in ast.walk(lp):
+                    if not isinstance(n, ast.Attribute):
+                        continue
+                    on_value = isinstance(n.value, ast.Name) and n.value.id == vvar
+                    on_item = isinstance(n.value, ast.Subscript) and isinstance(n.value.value, ast.Name) and n.value.value.id == d \
+                        and isinstance(n.value.slice, ast.Name) and n.value.slice.id == kvar
+                    if not (on_value or on_item):
+                        continue
+                    isinst, restrict = guards_of(n, lp)
+                    if isinst:
+                        continue
+                    for kk in (restrict if restrict is not None else list(key2param)):
+                        uses.setdefault(kk, set()).add(n.attr)
         found = 0
         for key, arg in sorted(key2param.items()):
-            if key == sens_names_key:
-                continue
             types = ann_types(arg.annotation)
             for t in sorted(types):
                 lacking = sorted(a for a in uses.get(key, ()) if a in TYPE_LACKS.get(t, ()))
